@@ -1,4 +1,5 @@
 """C10 — the generated C# state machine implements exactly the transition table."""
+import copy
 import json
 import os
 import time
@@ -27,12 +28,28 @@ def table_case(runner, r, oc, reqs, pend, big=False):
                 states.append(s)
     with scratch() as base:
         out = os.path.join(base, "out")
-        runner.generate(model, out)
+        if r.random() < 0.4:
+            # one script, one table: the other back ends (both C++ template sets, Python) are generated first, from the very
+            # list object the C# generation then gets
+            shared = copy.deepcopy(model["tt"])
+            for k_, (be, td) in enumerate(r.sample([("cpp", os.path.join(common.REPO, "kojen", "statemachine_templates_pc_boost")), ("cpp", ""), ("py", "")], r.randint(1, 3))):
+                other = dict(model, backend=be, iface=dict(model["iface"], structs=[]))
+                other.pop("templatedir", None)
+                if td:
+                    other["templatedir"] = td
+                runner.generate(other, os.path.join(base, "other%d" % k_), tt_obj=shared)
+            runner.generate(model, out, tt_obj=shared)
+            oc.stat("tables_shared_with_earlier_generations")
+        else:
+            runner.generate(model, out)
         name = model["name"]
         internals = open(os.path.join(out, name + "Internals.cs")).read()
         context = open(os.path.join(out, name + "Context.cs")).read()
     pi = smparse.cs_internals(internals, name)
     pc = smparse.cs_context(context, name, states)
+    # a coarse reading that needs no grammar: the names the handlers call on the context
+    import re
+    pi["called"] = sorted(set(re.findall(r"context\.([\w:]+)\(", internals)))
     reqs.append(dict(cmd="emitpy", tt=tt))
     pend.append((dict(model=model), pi, pc, tt))
     oc.case(("tt", json.dumps(tt), json.dumps(model["iface"], sort_keys=True)), nontrivial=len(tt) > 1)
@@ -49,7 +66,16 @@ def settle(oc, reqs, pend):
             continue
         oc.traces_validated += 1
         if pi["errors"] or pc["errors"]:
-            oc.corr_failures.append(dict(what="generated C# has an unexpected shape: %s" % (pi["errors"] + pc["errors"])[:3], input=info))
+            # the parse-back does not recognise the text.  Is the property hit all the same?  The handlers may call nothing on
+            # the context but the table's guards and actions and the entry / exit hooks of its states
+            names_ = {x for row in tt for x in (row[3], row[4]) if x}
+            sts = {x for row in tt for x in (row[0], row[2]) if x}
+            allowed = names_ | {"On%sEntry" % s_ for s_ in sts} | {"On%sExit" % s_ for s_ in sts}
+            foreign = [c_ for c_ in pi.get("called", []) if c_ not in allowed]
+            if foreign:
+                oc.violations.append(dict(what="the generated C# handlers call %s on the context: no guard, action or hook of the table" % foreign[:3], model=info["model"], table=tt))
+            else:
+                oc.corr_failures.append(dict(what="generated C# has an unexpected shape: %s" % (pi["errors"] + pc["errors"])[:3], input=info))
             continue
         got = [dict(state=c["state"], evs=c["evs"]) for c in pi["classes"]]
         if got != ans["fns"]:
